@@ -166,6 +166,13 @@ int main(int argc, char** argv)
                     stress.push_back("---" + std::string(n, 'y') + "=" + val);
                     stress.push_back("--opt" + std::string(n, 'z') + "=" + val);
                 }
+            // ramp: EVERY token length 1..300 for an unknown long name and for a (possibly surplus) positional - a complete
+            // range, so a limit in the code that builds the error message (48, 57, 80 columns ...) is inside
+            for (size_t n = 1; n <= 300; n++)
+            {
+                stress.push_back("--" + std::string(n, 'x'));
+                stress.push_back(std::string(n, 'p'));
+            }
             std::string distinct = "-";
             for (int c = 1; c < 256; c++)
                 if (c != '=' && c != '-')
